@@ -382,6 +382,14 @@ def make_strategy(script: dict):
                 kind = self.s.get('on_reduced')
                 if kind == 'liquidate':
                     self.liquidate()
+                elif kind == 'add_market' and self.exchange_type != 'spot':
+                    # scale back in at the market from inside the callback of the reducing fill
+                    dec = self.s.get('qty_dec', 3)
+                    qa = max(round(abs(self.position.qty) * 0.25, dec), 10 ** -dec)
+                    if self.is_long:
+                        self.buy = [(qa, self.price)]
+                    elif self.is_short:
+                        self.sell = [(qa, self.price)]
                 elif kind == 'be' and self.s.get('sl'):
                     # move the stop to break-even for the remaining size (only if that is still a stop)
                     be = self._px(self.position.entry_price)
@@ -435,6 +443,22 @@ def make_strategy(script: dict):
                         self.liquidate()
                     elif kind == 'trail_sl' and s.get('sl'):
                         self.stop_loss = [(q, self._px(price * (1 - sign * s['sl'])))]
+                    elif kind in ('trail_sl_inplace', 'move_tp_inplace') and s.get('sl' if kind == 'trail_sl_inplace' else 'tp'):
+                        # modify the declaration IN PLACE (jesse hands the formatted numpy array back through the property):
+                        # the price of the last row is moved, quantities stay
+                        import numpy as _np
+                        cur = self.stop_loss if kind == 'trail_sl_inplace' else self.take_profit
+                        dist = s['sl'] if kind == 'trail_sl_inplace' else s['tp']
+                        sgn = -sign if kind == 'trail_sl_inplace' else sign
+                        newp = self._px(price * (1 + sgn * dist * 1.1))
+                        if isinstance(cur, _np.ndarray) and cur.ndim == 2 and len(cur) >= 1 and \
+                                abs(_np.sum(cur[:, 0]) - q) <= 1e-9 * max(1.0, q) and \
+                                all(abs(newp - r_[1]) > abs(price) * 1e-6 for r_ in cur[:-1]):
+                            cur[-1, 1] = newp
+                        elif kind == 'trail_sl_inplace':
+                            self.stop_loss = [(q, newp)]
+                        else:
+                            self.take_profit = [(q, newp)]
                     elif kind == 'tp_ladder' and s.get('tp'):
                         n = 1 + int(self.rnd('tpn') * 3)
                         parts = self._split(q, n)
@@ -476,6 +500,12 @@ def make_strategy(script: dict):
                                     self.take_profit = rows
                                 else:
                                     self.stop_loss = rows
+                    elif kind == 'double_market_exit' and self.exchange_type != 'spot':
+                        # two exits at the current price in one step: a full-size stop-loss and a half-size take-profit both
+                        # become MARKET orders; the first one closes the position while the second is still pending
+                        half = self._split(q, 2)[0]
+                        self.stop_loss = [(q, price)]
+                        self.take_profit = [(half, price)]
                     elif kind == 'near_tp':
                         # an exit within / around the 0.015 % market band
                         off = [0.0, 0.0001, 0.00015, 0.0002, 0.0003][int(self.rnd('near') * 5)]
